@@ -214,6 +214,23 @@ func Arg[T any](t *FT, pos, i int) T {
 		v.SetFloat(math.Copysign(0, -1))
 		return asT[T](v)
 	}
+	// small integer kinds: their extreme and negative values (vectors 2/3)
+	switch ty.Kind() {
+	case reflect.Int8, reflect.Int16, reflect.Int32:
+		if i == 2 {
+			v.SetInt(-1 << (ty.Bits() - 1))
+			return asT[T](v)
+		}
+		if i == 3 {
+			v.SetInt(-1)
+			return asT[T](v)
+		}
+	case reflect.Uint8, reflect.Uint16:
+		if i == 2 {
+			v.SetUint(1<<ty.Bits() - 1)
+			return asT[T](v)
+		}
+	}
 	if i != 1 && (ty.Kind() == reflect.Int || ty.Kind() == reflect.Int64) {
 		// distinct values per position make a swap of same-typed arguments observable
 		v.SetInt(int64(1000*(pos+1) + i))
